@@ -12,13 +12,22 @@ package compiler
 
 import (
 	"bytes"
+	"io/fs"
+	"os"
+	"path"
 	"reflect"
+	"slices"
+	"strings"
 
 	"github.com/open2b/scriggo/ast"
 	"github.com/open2b/scriggo/internal/runtime"
 )
 
 var _ = reflect.Int
+var _ = slices.Contains[[]string]
+var _ = path.Join
+var _ = os.ErrNotExist
+var _ = fs.ValidPath
 
 // ---- specification helpers (interpreted by govc) ----
 
@@ -980,3 +989,67 @@ func specTextFlag(inURL, isURLSet bool) int8 {
 //@   props X00 C17
 //@   panics allowed
 //@   litassert[C17] ast.Upvar 1 lit.NativePkg == ti.NativePackageName && lit.NativeName == ident.Name && lit.Declaration == nil
+
+// ---------------------------------------------------------------------------
+// C18: template file loading stays inside the file system and does not recurse.
+// rooted resolves a referenced path against the referencing file; a resolved
+// (Clean) path leaves the root exactly when it is ".." or begins with "../"
+// (package path: Clean "eliminates .. elements that begin a rooted path" only
+// for rooted paths, so for a relative result they remain in front).
+// parseNodeFile reads a file only when its rooted name is neither on the stack
+// of files being expanded (a cycle, reported as *CycleError) nor already parsed,
+// and parseSource pushes the file on that stack exactly while its references
+// are expanded.
+// ---------------------------------------------------------------------------
+
+func specLeavesRoot(r string) bool { return r == ".." || strings.HasPrefix(r, "../") }
+
+//@ func ValidTemplatePath
+//@   props C18
+//@   pure
+//@   opt function yes
+//@   ensures result && len(old(path)) > 0 && old(path)[0] == '/' ==> fs.ValidPath(old(path)[1:])
+//@   loop 0
+//@     invariant len(path) <= old(len(path))
+//@     decreases len(path)
+
+//@ func rooted
+//@   props C18
+//@   requires ValidTemplatePath(name)
+//@   ensures path.IsAbs(name) ==> result1 == nil && result == name[1:] && fs.ValidPath(result)
+//@   ensures !path.IsAbs(name) ==> (result1 != nil) == specLeavesRoot(path.Join(path.Dir(parent), name))
+//@   ensures !path.IsAbs(name) && result1 == nil ==> result == path.Join(path.Dir(parent), name) && !specLeavesRoot(result)
+//@   ensures result1 != nil ==> result1 == os.ErrNotExist && result == ""
+
+// (The other obligations of the two units below - nil checks on nodes and
+// positions - need parser invariants and are not claimed: bucket X00.)
+//@ func (*templateExpansion).parseNodeFile
+//@   props X00 C18
+//@   opt track readFileAndFormat rooted
+//@   panics allowed
+//@   requires pp != nil && len(pp.paths) > 0 && pp.trees != nil
+//@   ensures[C18] called("readFileAndFormat") ==> lastErr("rooted") == nil
+//@   ensures[C18] called("readFileAndFormat") ==> !old(slices.Contains(pp.paths, lastArgStr("readFileAndFormat", 1)))
+//@   ensures[C18] called("readFileAndFormat") ==> !old(specHasTree(pp.trees, lastArgStr("readFileAndFormat", 1))) || old(pp.trees[lastArgStr("readFileAndFormat", 1)].tree == nil)
+//@   ensures[C18] called("readFileAndFormat") ==> lastArgStr("readFileAndFormat", 1) == lastResStr("rooted")
+
+func specHasTree(m map[string]parsedTree, k string) bool { _, ok := m[k]; return ok }
+func lastArgStr(f string, i int) string                 { return "" }
+func lastResStr(f string) string                        { return "" }
+func lastErr(f string) error                            { return nil }
+
+// expand is balanced by induction over the expansion: it changes pp.paths only
+// through parseSource, whose own contract below is the induction step.
+//@ func (*templateExpansion).expand
+//@   props C18
+//@   trusted
+//@   panics allowed
+//@   ensures len(pp.paths) == old(len(pp.paths))
+
+//@ func (*templateExpansion).parseSource
+//@   props X00 C18
+//@   opt stable templateExpansion
+//@   opt track expand
+//@   panics allowed
+//@   requires pp != nil
+//@   ensures[C18] called("expand") ==> len(pp.paths) == old(len(pp.paths))
